@@ -446,6 +446,31 @@ def unitsRule (op : OpSym) (a b : Option U) : Except Rej RuleOut :=
     if isUnitless a then .ok (.obj none) else .error .valueError
   | .log => .ok (.obj none)
 
+/-! ### n-ary combiners: every component's units are checked against a running value -/
+
+/-- qube.py:4954-4966 `from_scalars` (Vector/Vector3/Pair/Matrix.from_scalars): the loop
+    `new_units = new_units or scalar._units_; Units.require_compatible(new_units, scalar._units_)`
+    with the running value `run` -/
+def fromScalarsGo (run : Option U) : List (Option U) → Except Rej (Option U)
+  | [] => .ok run
+  | u :: us =>
+    let run' := orUnits run u
+    if canMatch run' u then fromScalarsGo run' us else .error .valueError
+
+def fromScalarsN (us : List (Option U)) : Except Rej (Option U) := fromScalarsGo none us
+
+/-- extensions/shaper.py:308-315 `stack`: `if arg._units_ is not None: if units is None: units = arg._units_
+    else: arg.confirm_units(units)` -/
+def stackGo (units : Option U) : List (Option U) → Except Rej (Option U)
+  | [] => .ok units
+  | none :: us => stackGo units us
+  | some a :: us =>
+    match units with
+    | none => stackGo (some a) us
+    | some r => if canMatch (some a) (some r) then stackGo (some r) us else .error .valueError
+
+def stackN (us : List (Option U)) : Except Rej (Option U) := stackGo none us
+
 /-! ### units of the derivatives of a result
 
 Every object carries its derivatives as objects with units of their own.  The operations build the
